@@ -621,6 +621,39 @@ CONDITIONS.append({"fn": "c26_tag_whitespace", "quick": 60, "thorough": 120, "se
                    "bounds": "12 x 12 whitespace strings (space, tab, CR, FF, VT, NBSP, em space, NEL, combinations) before / after a line break, 4 tag forms"})
 
 
+# ---- whitespace-only text between two placeholders (a content node of its own), and at either end of the message -------
+_WB_T = {}
+
+
+def wb_case(pi, qi, fi):
+    msg = WS_POOL[qi] + "{{ name }}" + WS_POOL[pi] + "{{ k }}" + WS_POOL[qi] + "{{ name }}" + WS_POOL[pi]
+    key = (pi, qi, fi)
+    if key not in _WB_T:
+        _WB_T[key] = ENV.from_string(TAG_FORMS[fi] % msg)
+    parts = tag_parts(msg)
+    out = render(_WB_T[key], {"name": "N", "k": "K"})
+    variables = {"name": "K" if fi == 3 else "N", "k": "K"}
+    return out, substitute(parts[0], variables), substitute(parts[1], variables)
+
+
+def c26_tag_ws_between(pi: int, qi: int, fi: int) -> bool:
+    """
+    pre: 0 <= pi <= 11 and 0 <= qi <= 11 and 0 <= fi <= 3
+    post: _
+    """
+    if excluded("c26_tag_ws_between", locals()):
+        return True
+    pi, qi, fi = cint(pi, 0, 11), cint(qi, 0, 11), cint(fi, 0, 3)
+    out, e1, e2 = untraced(lambda: wb_case(pi, qi, fi))
+    return finish(out == e1 or out == e2)
+
+
+DETAIL["c26_tag_ws_between"] = lambda pi, qi, fi: dict(zip(("observed", "expected (runs with a line break collapsed)", "expected (all runs collapsed)"),
+                                                         [repr(x) for x in wb_case(pi, qi, fi)]))
+CONDITIONS.append({"fn": "c26_tag_ws_between", "quick": 60, "thorough": 120, "sel_only": True,
+                   "bounds": "12 x 12 whitespace strings between / around three placeholders, 4 tag forms"})
+
+
 # ---- one parsed translate tag formatting several messages: the same template rendered again with another count, and the
 # tag inside a loop whose count changes per iteration (nothing learnt from one message may be applied to the next) ----------
 RR_PAIRS = [("One item", "{{ count }} items"), ("{{ count }} item", "Many items"), ("One %", "{{ count }} %%"), ("{{ n }} thing", "{{ n }} things ({{ count }})"),
